@@ -189,4 +189,1303 @@ theorem stop_active_heap (s : S) (id : Nat) (hw : WF s) (ha : (getT s id).active
   · rw [stop_active s id ha, hi]; rfl
   · rw [stop_active s id ha]; rfl
 
+/-! ### `WF` under changes of the bookkeeping fields -/
+
+theorem WF.ready_sub {s : S} (hw : WF s) (r : List Nat) (h : r.Sublist s.ready) :
+    WF { s with ready := r } :=
+  ⟨hw.time_lt, hw.inv, hw.ent, hw.act, hw.idNodup, hw.sidNodup,
+   fun j hj => hw.rdy j (h.subset hj), h.nodup hw.rdyNodup, hw.closing, hw.actCb⟩
+
+theorem WF.ncb_trace {s : S} (hw : WF s) (n : Nat) (tr : List (Nat × Nat)) :
+    WF { s with ncb := n, trace := tr } :=
+  ⟨hw.time_lt, hw.inv, hw.ent, hw.act, hw.idNodup, hw.sidNodup, hw.rdy, hw.rdyNodup,
+   hw.closing, hw.actCb⟩
+
+/-! ### `stop` -/
+
+theorem stop_inactive_after (s : S) (id : Nat) : (getT (stop s id) id).active = false := by
+  rw [stop_getT, if_pos rfl]
+
+theorem stop_wf (s : S) (id : Nat) (hw : WF s) : WF (stop s id) := by
+  by_cases ha : (getT s id).active = true
+  · obtain ⟨i, hlt, hid, hh, hr⟩ := stop_active_heap s id hw ha
+    have P := remove_perm s.heap i hlt
+    rw [← hh] at P
+    have hnd := (P.map (·.id)).nodup_iff.1 hw.idNodup
+    rw [List.map_cons, List.nodup_cons, hid] at hnd
+    have hsd := (P.map (·.startId)).nodup_iff.1 hw.sidNodup
+    rw [List.map_cons, List.nodup_cons] at hsd
+    have hmem : ∀ x, x ∈ (stop s id).heap.toList → x ∈ s.heap.toList :=
+      fun x hx => P.mem_iff.2 (List.mem_cons_of_mem _ hx)
+    have hne : ∀ x ∈ (stop s id).heap.toList, x.id ≠ id := by
+      intro x hx e; exact hnd.1 (List.mem_map.2 ⟨x, hx, e⟩)
+    refine ⟨?_, ?_, ?_, ?_, hnd.2, hsd.2, ?_, ?_, ?_, ?_⟩
+    · simpa using hw.time_lt
+    · rw [hh]; exact remove_inv _ _ hw.inv
+    · intro x hx
+      rw [stop_getT, if_neg (hne x hx), stop_counter]
+      exact hw.ent x (hmem x hx)
+    · intro j hj
+      rw [stop_getT] at hj
+      by_cases e : j = id
+      · rw [if_pos e] at hj; simp at hj
+      · rw [if_neg e] at hj
+        obtain ⟨x, hx, hxid⟩ := hw.act j hj
+        rcases List.mem_cons.1 (P.mem_iff.1 hx) with h | h
+        · exfalso; apply e; rw [← hxid, h, hid]
+        · exact ⟨x, h, hxid⟩
+    · intro j hj; rw [hr] at hj
+      rw [stop_getT]
+      have := hw.rdy j hj
+      by_cases e : j = id
+      · subst e; simp [this]
+      · rw [if_neg e]; exact this
+    · rw [hr]; exact hw.rdyNodup
+    · intro j hj; rw [stop_getT] at hj ⊢
+      by_cases e : j = id
+      · simp [e]
+      · rw [if_neg e] at hj ⊢; exact hw.closing j hj
+    · intro j hj; rw [stop_getT] at hj ⊢
+      by_cases e : j = id
+      · simp [e] at hj
+      · rw [if_neg e] at hj ⊢; exact hw.actCb j hj
+  · have ha' : (getT s id).active = false := by simpa using ha
+    rw [stop_inactive s id ha']
+    exact hw.ready_sub _ List.filter_sublist
+
+theorem stop_not_ready (s : S) (id : Nat) (hw : WF s) : id ∉ (stop s id).ready := by
+  by_cases ha : (getT s id).active = true
+  · obtain ⟨i, _, _, _, hr⟩ := stop_active_heap s id hw ha
+    rw [hr]; intro h
+    have := (hw.rdy id h).1
+    rw [ha] at this; cases this
+  · have ha' : (getT s id).active = false := by simpa using ha
+    rw [stop_inactive s id ha']
+    simp
+
+theorem stop_not_heap (s : S) (id : Nat) (hw : WF s) : ∀ e ∈ (stop s id).heap.toList, e.id ≠ id := by
+  intro e he h
+  have := ((stop_wf s id hw).ent e he).1
+  rw [h, stop_inactive_after] at this
+  cases this
+
+/-! ### `arm`: the part of `uv_timer_start` after the embedded `uv_timer_stop` -/
+
+def arm (s : S) (id to rp : Nat) : S :=
+  let c := clampC s.time to
+  let t : T := { getT s id with hasCb := true, timeout := c, rep := rp, startId := s.counter, active := true }
+  { setT s id t with counter := s.counter + 1, heap := insert s.heap ⟨c, s.counter, id⟩ }
+
+theorem start_eq (s : S) (id to rp : Nat) :
+    start s id to rp = if (getT s id).closing = true then (s, -22) else (arm (stop s id) id to rp, 0) := by
+  unfold start arm
+  simp only []
+  split <;> simp
+
+theorem arm_getT (s : S) (id to rp j : Nat) :
+    getT (arm s id to rp) j = if j = id ∧ id < s.ts.size then
+      { getT s id with hasCb := true, timeout := clampC s.time to, rep := rp, startId := s.counter, active := true }
+      else getT s j := by
+  unfold arm
+  simp only []
+  rw [← getT_setT]
+  exact getT_congr _ _ rfl j
+
+theorem arm_wf (s : S) (id to rp : Nat) (hw : WF s) (hlt : id < s.ts.size)
+    (hi : (getT s id).active = false) (hr : id ∉ s.ready) (hc : (getT s id).closing = false) :
+    WF (arm s id to rp) := by
+  have hheap : (arm s id to rp).heap = insert s.heap ⟨clampC s.time to, s.counter, id⟩ := rfl
+  have hcnt : (arm s id to rp).counter = s.counter + 1 := rfl
+  have hrd : (arm s id to rp).ready = s.ready := rfl
+  have P := insert_perm s.heap ⟨clampC s.time to, s.counter, id⟩
+  rw [← hheap] at P
+  have hold : ∀ e ∈ s.heap.toList, e.id ≠ id := by
+    intro e he h
+    have := (hw.ent e he).1
+    rw [h, hi] at this; cases this
+  refine ⟨hw.time_lt, ?_, ?_, ?_, ?_, ?_, ?_, ?_, ?_, ?_⟩
+  · rw [hheap]; exact insert_inv _ _ hw.inv
+  · intro e he
+    rw [arm_getT, hcnt]
+    rcases List.mem_cons.1 (P.mem_iff.1 he) with h | h
+    · subst h; simp [hlt]
+    · have := hw.ent e h
+      simp only [hold e h, false_and, if_false]
+      exact ⟨this.1, this.2.1, this.2.2.1, by omega⟩
+  · intro j hj
+    rw [arm_getT] at hj
+    by_cases e : j = id
+    · exact ⟨_, P.mem_iff.2 (List.mem_cons_self), e.symm⟩
+    · simp only [e, false_and, if_false] at hj
+      obtain ⟨x, hx, hxid⟩ := hw.act j hj
+      exact ⟨x, P.mem_iff.2 (List.mem_cons_of_mem _ hx), hxid⟩
+  · refine (P.map (·.id)).nodup_iff.2 ?_
+    rw [List.map_cons, List.nodup_cons]
+    refine ⟨?_, hw.idNodup⟩
+    intro h
+    obtain ⟨x, hx, hxid⟩ := List.mem_map.1 h
+    exact hold x hx hxid
+  · refine (P.map (·.startId)).nodup_iff.2 ?_
+    rw [List.map_cons, List.nodup_cons]
+    refine ⟨?_, hw.sidNodup⟩
+    intro h
+    obtain ⟨x, hx, hxid⟩ := List.mem_map.1 h
+    have := (hw.ent x hx).2.2.2
+    simp only at hxid
+    omega
+  · intro j hj
+    rw [hrd] at hj
+    have e : j ≠ id := fun e => hr (e ▸ hj)
+    rw [arm_getT]
+    simp only [e, false_and, if_false]
+    exact hw.rdy j hj
+  · exact hw.rdyNodup
+  · intro j hj
+    rw [arm_getT] at hj ⊢
+    by_cases e : j = id
+    · subst e; simp [hlt, hc] at hj
+    · simp only [e, false_and, if_false] at hj ⊢; exact hw.closing j hj
+  · intro j hj
+    rw [arm_getT] at hj ⊢
+    by_cases e : j = id
+    · subst e; simp [hlt]
+    · simp only [e, false_and, if_false] at hj ⊢; exact hw.actCb j hj
+
+@[simp] theorem arm_time (s : S) (id to rp : Nat) : (arm s id to rp).time = s.time := rfl
+@[simp] theorem arm_ready (s : S) (id to rp : Nat) : (arm s id to rp).ready = s.ready := rfl
+@[simp] theorem arm_ncb (s : S) (id to rp : Nat) : (arm s id to rp).ncb = s.ncb := rfl
+@[simp] theorem arm_trace (s : S) (id to rp : Nat) : (arm s id to rp).trace = s.trace := rfl
+@[simp] theorem arm_size (s : S) (id to rp : Nat) : (arm s id to rp).ts.size = s.ts.size := by
+  unfold arm; simp [setT]
+
+/-! ### `start` -/
+
+theorem start_wf (s : S) (id to rp : Nat) (hw : WF s) (hlt : id < s.ts.size) :
+    WF (start s id to rp).1 := by
+  rw [start_eq]
+  split
+  · exact hw
+  · rename_i hc
+    refine arm_wf _ _ _ _ (stop_wf s id hw) (by simpa using hlt) (stop_inactive_after s id)
+      (stop_not_ready s id hw) ?_
+    rw [stop_getT, if_pos rfl]
+    simpa using hc
+
+/-! ### `again` -/
+
+theorem again_eq (s : S) (id : Nat) :
+    again s id = if (getT s id).hasCb = false then (s, -22)
+      else if (getT s id).rep ≠ 0 then
+        ((start (stop s id) id (getT s id).rep (getT s id).rep).1, 0) else (s, 0) := by
+  unfold again
+  simp only []
+  by_cases h : (getT s id).hasCb = true
+  · by_cases h2 : (getT s id).rep = 0 <;> simp [h, h2]
+  · simp [h]
+
+theorem again_wf (s : S) (id : Nat) (hw : WF s) : WF (again s id).1 := by
+  rw [again_eq]
+  split
+  · exact hw
+  · rename_i hcb
+    split
+    · exact start_wf _ _ _ _ (stop_wf s id hw) (by simpa using hasCb_lt s id (by simpa using hcb))
+    · exact hw
+
+/-! ### `setRepeat` -/
+
+theorem setRepeat_getT (s : S) (id rp j : Nat) :
+    getT (setRepeat s id rp) j = if j = id ∧ id < s.ts.size then { getT s id with rep := rp } else getT s j := by
+  unfold setRepeat; exact getT_setT _ _ _ _
+
+@[simp] theorem setRepeat_active (s : S) (id rp j : Nat) :
+    (getT (setRepeat s id rp) j).active = (getT s j).active := by
+  rw [setRepeat_getT]; split
+  · rename_i h; rw [h.1]
+  · rfl
+@[simp] theorem setRepeat_closing (s : S) (id rp j : Nat) :
+    (getT (setRepeat s id rp) j).closing = (getT s j).closing := by
+  rw [setRepeat_getT]; split
+  · rename_i h; rw [h.1]
+  · rfl
+@[simp] theorem setRepeat_hasCb (s : S) (id rp j : Nat) :
+    (getT (setRepeat s id rp) j).hasCb = (getT s j).hasCb := by
+  rw [setRepeat_getT]; split
+  · rename_i h; rw [h.1]
+  · rfl
+@[simp] theorem setRepeat_timeout (s : S) (id rp j : Nat) :
+    (getT (setRepeat s id rp) j).timeout = (getT s j).timeout := by
+  rw [setRepeat_getT]; split
+  · rename_i h; rw [h.1]
+  · rfl
+@[simp] theorem setRepeat_startId (s : S) (id rp j : Nat) :
+    (getT (setRepeat s id rp) j).startId = (getT s j).startId := by
+  rw [setRepeat_getT]; split
+  · rename_i h; rw [h.1]
+  · rfl
+
+theorem setRepeat_wf (s : S) (id rp : Nat) (hw : WF s) : WF (setRepeat s id rp) := by
+  have hh : (setRepeat s id rp).heap = s.heap := rfl
+  have hr : (setRepeat s id rp).ready = s.ready := rfl
+  have hc : (setRepeat s id rp).counter = s.counter := rfl
+  refine ⟨hw.time_lt, hw.inv, ?_, ?_, hw.idNodup, hw.sidNodup, ?_, hw.rdyNodup, ?_, ?_⟩
+  · intro e he; rw [hh] at he; simpa [hc] using hw.ent e he
+  · intro j hj; rw [hh]; exact hw.act j (by simpa using hj)
+  · intro j hj; rw [hr] at hj; simpa using hw.rdy j hj
+  · intro j hj; simpa using hw.closing j (by simpa using hj)
+  · intro j hj; simpa using hw.actCb j (by simpa using hj)
+
+/-! ### `close` -/
+
+theorem WF.setT_inactive {s : S} (hw : WF s) (id : Nat) (t : T) (hi : (getT s id).active = false)
+    (hr : id ∉ s.ready) (ht : t.active = false) : WF (setT s id t) := by
+  have hne : ∀ j, (getT s j).active = true → getT (setT s id t) j = getT s j := by
+    intro j hj
+    rw [getT_setT]
+    have : j ≠ id := by intro e; rw [e, hi] at hj; cases hj
+    simp [this]
+  have hact : ∀ j, (getT (setT s id t) j).active = true → (getT s j).active = true ∧ j ≠ id := by
+    intro j hj
+    rw [getT_setT] at hj
+    by_cases e : j = id ∧ id < s.ts.size
+    · rw [if_pos e, ht] at hj; cases hj
+    · rw [if_neg e] at hj
+      refine ⟨hj, ?_⟩
+      intro e'; rw [e', hi] at hj; cases hj
+  refine ⟨hw.time_lt, hw.inv, ?_, ?_, hw.idNodup, hw.sidNodup, ?_, hw.rdyNodup, ?_, ?_⟩
+  · intro e he
+    have := hw.ent e he
+    rw [hne e.id this.1]; exact this
+  · intro j hj; exact hw.act j (hact j hj).1
+  · intro j hj
+    have e : j ≠ id := fun e => hr (e ▸ hj)
+    rw [getT_setT]; simp only [e, false_and, if_false]; exact hw.rdy j hj
+  · intro j hj
+    rw [getT_setT] at hj ⊢
+    by_cases e : j = id ∧ id < s.ts.size
+    · rw [if_pos e]; exact ht
+    · rw [if_neg e] at hj ⊢; exact hw.closing j hj
+  · intro j hj
+    have := hact j hj
+    rw [hne j this.1]; exact hw.actCb j this.1
+
+theorem close_wf (s : S) (id : Nat) (hw : WF s) : WF (close s id) := by
+  unfold close
+  exact (stop_wf s id hw).setT_inactive id _ (stop_inactive_after s id) (stop_not_ready s id hw)
+    (stop_inactive_after s id)
+
+/-! ### `applyOp` -/
+
+def Op.id : Op → Nat
+  | .start id _ _ => id
+  | .stop id => id
+  | .again id => id
+  | .setRepeat id _ => id
+  | .close id => id
+
+theorem applyOp_wf (s : S) (o : Op) (hw : WF s) (hlt : o.id < s.ts.size) : WF (applyOp s o) := by
+  cases o with
+  | start id to rp => exact start_wf s id to rp hw hlt
+  | stop id => exact stop_wf s id hw
+  | again id => exact again_wf s id hw
+  | setRepeat id rp => exact setRepeat_wf s id rp hw
+  | close id => exact close_wf s id hw
+
+/-! ### what no timer operation touches: clock, callback count, trace, table size;
+    and the ready queue never grows -/
+
+structure Same (s s' : S) : Prop where
+  time : s'.time = s.time
+  ncb : s'.ncb = s.ncb
+  trace : s'.trace = s.trace
+  size : s'.ts.size = s.ts.size
+  ready : s'.ready.Sublist s.ready
+
+theorem Same.refl (s : S) : Same s s := ⟨rfl, rfl, rfl, rfl, List.Sublist.refl _⟩
+theorem Same.trans {a b c : S} (h1 : Same a b) (h2 : Same b c) : Same a c :=
+  ⟨h2.time.trans h1.time, h2.ncb.trans h1.ncb, h2.trace.trans h1.trace, h2.size.trans h1.size,
+   h2.ready.trans h1.ready⟩
+
+theorem stop_same (s : S) (id : Nat) : Same s (stop s id) :=
+  ⟨stop_time s id, stop_ncb s id, stop_trace s id, stop_size s id, stop_ready_sublist s id⟩
+
+theorem arm_same (s : S) (id to rp : Nat) : Same s (arm s id to rp) :=
+  ⟨rfl, rfl, rfl, arm_size s id to rp, List.Sublist.refl _⟩
+
+theorem start_same (s : S) (id to rp : Nat) : Same s (start s id to rp).1 := by
+  rw [start_eq]; split
+  · exact Same.refl s
+  · exact (stop_same s id).trans (arm_same _ id to rp)
+
+theorem again_same (s : S) (id : Nat) : Same s (again s id).1 := by
+  rw [again_eq]; split
+  · exact Same.refl s
+  · split
+    · exact (stop_same s id).trans (start_same _ _ _ _)
+    · exact Same.refl s
+
+theorem setRepeat_same (s : S) (id rp : Nat) : Same s (setRepeat s id rp) :=
+  ⟨rfl, rfl, rfl, by simp [setRepeat], List.Sublist.refl _⟩
+
+theorem close_same (s : S) (id : Nat) : Same s (close s id) := by
+  unfold close
+  exact (stop_same s id).trans ⟨rfl, rfl, rfl, by simp, List.Sublist.refl _⟩
+
+theorem applyOp_same (s : S) (o : Op) : Same s (applyOp s o) := by
+  cases o with
+  | start id to rp => exact start_same s id to rp
+  | stop id => exact stop_same s id
+  | again id => exact again_same s id
+  | setRepeat id rp => exact setRepeat_same s id rp
+  | close id => exact close_same s id
+
+theorem ops_same (ops : List Op) (s : S) : Same s (ops.foldl applyOp s) := by
+  induction ops generalizing s with
+  | nil => exact Same.refl s
+  | cons o r ih => exact (applyOp_same s o).trans (ih _)
+
+theorem ops_wf (ops : List Op) (s : S) (hw : WF s) (hok : ∀ o ∈ ops, o.id < s.ts.size) :
+    WF (ops.foldl applyOp s) := by
+  induction ops generalizing s with
+  | nil => exact hw
+  | cons o r ih =>
+    refine ih _ (applyOp_wf s o hw (hok o List.mem_cons_self)) ?_
+    intro o' ho'
+    rw [(applyOp_same s o).size]
+    exact hok o' (List.mem_cons_of_mem _ ho')
+
+theorem nodup_map_inj {α β : Type} (f : α → β) (l : List α) (h : (l.map f).Nodup) :
+    ∀ x ∈ l, ∀ y ∈ l, f x = f y → x = y := by
+  induction l with
+  | nil => intro x hx; cases hx
+  | cons a l ih =>
+    rw [List.map_cons, List.nodup_cons] at h
+    intro x hx y hy hxy
+    rcases List.mem_cons.1 hx with rfl | hx' <;> rcases List.mem_cons.1 hy with rfl | hy'
+    · rfl
+    · exact absurd (hxy ▸ List.mem_map.2 ⟨y, hy', rfl⟩) h.1
+    · exact absurd (hxy ▸ List.mem_map.2 ⟨x, hx', rfl⟩) h.1
+    · exact ih h.2 x hx' y hy' hxy
+
+/-- distinct heap entries compare strictly (start ids are pairwise distinct) -/
+theorem WF.lt_of_le {s : S} (hw : WF s) (x y : Ent) (hx : x ∈ s.heap.toList) (hy : y ∈ s.heap.toList)
+    (hne : x ≠ y) (hle : lt y x = false) : lt x y = true := by
+  have hs : x.startId ≠ y.startId := fun e => hne (nodup_map_inj _ _ hw.sidNodup x hx y hy e)
+  rw [lt_eq_false_iff] at hle
+  rw [lt_eq_true_iff]
+  omega
+
+/-! ### first loop of `uv__run_timers` -/
+
+/-- one round of the first loop: `uv_timer_stop(handle); uv__queue_insert_tail(&ready_queue, …)` -/
+def collectStep (s : S) (e : Ent) : S :=
+  { stop s e.id with ready := (stop s e.id).ready ++ [e.id] }
+
+/-- the heap entries taken out by `collect`, in the order they were taken -/
+def collected (s : S) : Nat → List Ent
+  | 0 => []
+  | fuel + 1 =>
+    match min? s.heap with
+    | none => []
+    | some e => if e.timeout > s.time then [] else e :: collected (collectStep s e) fuel
+
+theorem collect_none (s : S) (f : Nat) (h : min? s.heap = none) : collect s (f + 1) = s := by
+  simp [collect, h]
+theorem collect_notdue (s : S) (f : Nat) (e : Ent) (h : min? s.heap = some e) (hd : e.timeout > s.time) :
+    collect s (f + 1) = s := by
+  simp [collect, h, hd]
+theorem collect_due (s : S) (f : Nat) (e : Ent) (h : min? s.heap = some e) (hd : ¬ e.timeout > s.time) :
+    collect s (f + 1) = collect (collectStep s e) f := by
+  simp only [collect, h, hd, if_false]; rfl
+theorem collected_none (s : S) (f : Nat) (h : min? s.heap = none) : collected s (f + 1) = [] := by
+  simp [collected, h]
+theorem collected_notdue (s : S) (f : Nat) (e : Ent) (h : min? s.heap = some e) (hd : e.timeout > s.time) :
+    collected s (f + 1) = [] := by
+  simp [collected, h, hd]
+theorem collected_due (s : S) (f : Nat) (e : Ent) (h : min? s.heap = some e) (hd : ¬ e.timeout > s.time) :
+    collected s (f + 1) = e :: collected (collectStep s e) f := by
+  simp only [collected, h, hd, if_false]
+
+/-- induction principle following the control flow of `collect` from a well-formed state -/
+theorem collect_cases (s : S) (f : Nat) :
+    (min? s.heap = none ∧ collect s (f + 1) = s ∧ collected s (f + 1) = []) ∨
+    (∃ e, min? s.heap = some e ∧ e.timeout > s.time ∧ collect s (f + 1) = s ∧ collected s (f + 1) = []) ∨
+    (∃ e, min? s.heap = some e ∧ e.timeout ≤ s.time ∧ collect s (f + 1) = collect (collectStep s e) f
+        ∧ collected s (f + 1) = e :: collected (collectStep s e) f) := by
+  cases hm : min? s.heap with
+  | none => exact Or.inl ⟨rfl, collect_none s f hm, collected_none s f hm⟩
+  | some e =>
+    by_cases hd : e.timeout > s.time
+    · exact Or.inr (Or.inl ⟨e, rfl, hd, collect_notdue s f e hm hd, collected_notdue s f e hm hd⟩)
+    · exact Or.inr (Or.inr ⟨e, rfl, by omega, collect_due s f e hm hd, collected_due s f e hm hd⟩)
+
+@[simp] theorem collectStep_time (s : S) (e : Ent) : (collectStep s e).time = s.time := stop_time s e.id
+@[simp] theorem collectStep_counter (s : S) (e : Ent) : (collectStep s e).counter = s.counter :=
+  stop_counter s e.id
+@[simp] theorem collectStep_ncb (s : S) (e : Ent) : (collectStep s e).ncb = s.ncb := stop_ncb s e.id
+@[simp] theorem collectStep_trace (s : S) (e : Ent) : (collectStep s e).trace = s.trace := stop_trace s e.id
+@[simp] theorem collectStep_size (s : S) (e : Ent) : (collectStep s e).ts.size = s.ts.size := stop_size s e.id
+theorem collectStep_getT (s : S) (e : Ent) (j : Nat) : getT (collectStep s e) j = getT (stop s e.id) j := rfl
+
+/-- effect of one round on a well-formed state whose root is `e` -/
+theorem collectStep_spec (s : S) (e : Ent) (hw : WF s) (hm : min? s.heap = some e) :
+    WF (collectStep s e) ∧ s.heap.toList.Perm (e :: (collectStep s e).heap.toList)
+      ∧ (collectStep s e).ready = s.ready ++ [e.id]
+      ∧ (collectStep s e).heap.size + 1 = s.heap.size := by
+  have hmem := min?_mem s.heap e hm
+  have hent := hw.ent e hmem
+  obtain ⟨i, hlt, hid, hh, hr⟩ := stop_active_heap s e.id hw hent.1
+  have hgi : g s.heap i = e :=
+    nodup_map_inj _ _ hw.idNodup _ ((mem_heap_iff _ _).2 ⟨i, hlt, rfl⟩) e hmem hid
+  have hw1 := stop_wf s e.id hw
+  have hnr := stop_not_ready s e.id hw
+  refine ⟨?_, ?_, ?_, ?_⟩
+  · refine ⟨hw1.time_lt, hw1.inv, hw1.ent, hw1.act, hw1.idNodup, hw1.sidNodup, ?_, ?_, hw1.closing,
+      hw1.actCb⟩
+    · intro j hj
+      rcases List.mem_append.1 hj with h | h
+      · exact hw1.rdy j h
+      · rw [List.mem_singleton.1 h, collectStep_getT, stop_getT, if_pos rfl]
+        refine ⟨rfl, ?_, hw.actCb _ hent.1⟩
+        cases hc : (getT s e.id).closing with
+        | false => rfl
+        | true => have := hw.closing _ hc; rw [hent.1] at this; cases this
+    · show ((stop s e.id).ready ++ [e.id]).Nodup
+      rw [List.nodup_append]
+      refine ⟨hw1.rdyNodup, by simp, ?_⟩
+      intro a ha b hb hab
+      rw [List.mem_singleton.1 hb] at hab
+      exact hnr (hab ▸ ha)
+  · have P := remove_perm s.heap i hlt
+    rw [hgi, ← hh] at P
+    exact P
+  · show (stop s e.id).ready ++ [e.id] = _
+    rw [hr]
+  · show (stop s e.id).heap.size + 1 = _
+    rw [hh, remove_size _ _ hlt]; omega
+
+theorem collect_wf (s : S) (f : Nat) (hw : WF s) : WF (collect s f) := by
+  induction f generalizing s with
+  | zero => exact hw
+  | succ f ih =>
+    rcases collect_cases s f with ⟨_, h, _⟩ | ⟨e, _, _, h, _⟩ | ⟨e, hm, _, h, _⟩
+    · rw [h]; exact hw
+    · rw [h]; exact hw
+    · rw [h]; exact ih _ (collectStep_spec s e hw hm).1
+
+/-- `collect` touches neither the clock, the counter, the callback count nor the trace -/
+theorem collect_fields (s : S) (f : Nat) :
+    (collect s f).time = s.time ∧ (collect s f).counter = s.counter ∧ (collect s f).ncb = s.ncb
+      ∧ (collect s f).trace = s.trace ∧ (collect s f).ts.size = s.ts.size := by
+  induction f generalizing s with
+  | zero => exact ⟨rfl, rfl, rfl, rfl, rfl⟩
+  | succ f ih =>
+    rcases collect_cases s f with ⟨_, h, _⟩ | ⟨e, _, _, h, _⟩ | ⟨e, hm, _, h, _⟩
+    · rw [h]; exact ⟨rfl, rfl, rfl, rfl, rfl⟩
+    · rw [h]; exact ⟨rfl, rfl, rfl, rfl, rfl⟩
+    · rw [h]; simpa using ih (collectStep s e)
+
+/-- the ready queue after `collect` is the old one followed by the collected ids, in order -/
+theorem collect_ready (s : S) (f : Nat) (hw : WF s) :
+    (collect s f).ready = s.ready ++ (collected s f).map (·.id) := by
+  induction f generalizing s with
+  | zero => simp [collect, collected]
+  | succ f ih =>
+    rcases collect_cases s f with ⟨_, h, h'⟩ | ⟨e, _, _, h, h'⟩ | ⟨e, hm, _, h, h'⟩
+    · rw [h, h']; simp
+    · rw [h, h']; simp
+    · have sp := collectStep_spec s e hw hm
+      rw [h, h', ih _ sp.1, sp.2.2.1]; simp
+
+/-- the collected entries plus the remaining heap are the old heap (as multisets) -/
+theorem collect_perm (s : S) (f : Nat) (hw : WF s) :
+    s.heap.toList.Perm (collected s f ++ (collect s f).heap.toList) := by
+  induction f generalizing s with
+  | zero => simp [collect, collected]
+  | succ f ih =>
+    rcases collect_cases s f with ⟨_, h, h'⟩ | ⟨e, _, _, h, h'⟩ | ⟨e, hm, _, h, h'⟩
+    · rw [h, h']; simp
+    · rw [h, h']; simp
+    · have sp := collectStep_spec s e hw hm
+      rw [h, h']
+      exact sp.2.1.trans (List.Perm.cons e (ih _ sp.1))
+
+/-- every collected entry was due -/
+theorem collected_due_le (s : S) (f : Nat) : ∀ e ∈ collected s f, e.timeout ≤ s.time := by
+  induction f generalizing s with
+  | zero => intro e he; simp [collected] at he
+  | succ f ih =>
+    rcases collect_cases s f with ⟨_, _, h'⟩ | ⟨e, _, _, _, h'⟩ | ⟨e, hm, hd, _, h'⟩
+    · rw [h']; intro e he; cases he
+    · rw [h']; intro e he; cases he
+    · rw [h']; intro x hx
+      rcases List.mem_cons.1 hx with rfl | hx
+      · exact hd
+      · simpa using ih (collectStep s e) x hx
+
+/-- the collected entries come out strictly increasing in `(timeout, startId)` -/
+theorem collected_sorted (s : S) (f : Nat) (hw : WF s) :
+    (collected s f).Pairwise (fun a b => lt a b = true) := by
+  induction f generalizing s with
+  | zero => simp [collected]
+  | succ f ih =>
+    rcases collect_cases s f with ⟨_, _, h'⟩ | ⟨e, _, _, _, h'⟩ | ⟨e, hm, hd, _, h'⟩
+    · rw [h']; exact List.Pairwise.nil
+    · rw [h']; exact List.Pairwise.nil
+    · have sp := collectStep_spec s e hw hm
+      rw [h', List.pairwise_cons]
+      refine ⟨?_, ih _ sp.1⟩
+      intro x hx
+      have hx1 : x ∈ (collectStep s e).heap.toList :=
+        (collect_perm _ f sp.1).mem_iff.2 (List.mem_append_left _ hx)
+      have hx0 : x ∈ s.heap.toList := sp.2.1.mem_iff.2 (List.mem_cons_of_mem _ hx1)
+      have hnd := (sp.2.1.map (·.id)).nodup_iff.1 hw.idNodup
+      rw [List.map_cons, List.nodup_cons] at hnd
+      have hne : e ≠ x := by
+        intro h; subst h
+        exact hnd.1 (List.mem_map.2 ⟨_, hx1, rfl⟩)
+      exact hw.lt_of_le e x (min?_mem _ _ hm) hx0 hne (min?_le _ hw.inv e x hm hx0)
+
+/-- with enough fuel nothing due is left behind -/
+theorem collect_none_due (s : S) (f : Nat) (hw : WF s) (hf : s.heap.size < f) :
+    ∀ e ∈ (collect s f).heap.toList, e.timeout > s.time := by
+  induction f generalizing s with
+  | zero => omega
+  | succ f ih =>
+    rcases collect_cases s f with ⟨hm, h, _⟩ | ⟨e, hm, hd, h, _⟩ | ⟨e, hm, _, h, _⟩
+    · rw [h]; intro x hx
+      have := min?_none _ hm
+      obtain ⟨j, hj, _⟩ := (mem_heap_iff _ _).1 hx
+      omega
+    · rw [h]; intro x hx
+      have := min?_le _ hw.inv e x hm hx
+      rw [lt_eq_false_iff] at this
+      omega
+    · have sp := collectStep_spec s e hw hm
+      rw [h]
+      simpa using ih _ sp.1 (by have := sp.2.2.2; omega)
+
+/-- fuel beyond `heap.size + 1` changes nothing -/
+theorem collect_fuel (s : S) (f f' : Nat) (hw : WF s) (hf : s.heap.size < f) (hf' : s.heap.size < f') :
+    collect s f = collect s f' ∧ collected s f = collected s f' := by
+  induction f generalizing s f' with
+  | zero => omega
+  | succ f ih =>
+    cases f' with
+    | zero => omega
+    | succ f' =>
+      rcases collect_cases s f with ⟨hm, h, h'⟩ | ⟨e, hm, hd, h, h'⟩ | ⟨e, hm, hd, h, h'⟩
+      · rw [h, h', collect_none s f' hm, collected_none s f' hm]; exact ⟨rfl, rfl⟩
+      · rw [h, h', collect_notdue s f' e hm hd, collected_notdue s f' e hm hd]; exact ⟨rfl, rfl⟩
+      · have sp := collectStep_spec s e hw hm
+        rw [h, h', collect_due s f' e hm (by omega), collected_due s f' e hm (by omega)]
+        have := ih (collectStep s e) f' sp.1 (by have := sp.2.2.2; omega) (by have := sp.2.2.2; omega)
+        rw [this.1, this.2]; exact ⟨rfl, rfl⟩
+
+/-! ### second loop of `uv__run_timers` -/
+
+/-- every operation of every callback of the script names an existing handle -/
+def ScriptOk (n : Nat) (sc : Script) : Prop := ∀ k, ∀ o ∈ sc k, o.id < n
+
+/-- state in which the callback of `id` starts: popped from the ready queue, `uv_timer_again` done,
+    invocation recorded -/
+def preCb (s : S) (id : Nat) (rest : List Nat) : S :=
+  let s1 := (again { s with ready := rest } id).1
+  { s1 with ncb := s1.ncb + 1, trace := (id, s1.time) :: s1.trace }
+
+/-- one round of the second loop, including the scripted callback -/
+def fireStep (sc : Script) (s : S) (id : Nat) (rest : List Nat) : S :=
+  (sc (again { s with ready := rest } id).1.ncb).foldl applyOp (preCb s id rest)
+
+/-- ids whose callback `fire` invokes, in invocation order -/
+def fired (sc : Script) (s : S) : Nat → List Nat
+  | 0 => []
+  | fuel + 1 =>
+    match s.ready with
+    | [] => []
+    | id :: rest => id :: fired sc (fireStep sc s id rest) fuel
+
+theorem fire_nil (sc : Script) (s : S) (f : Nat) (h : s.ready = []) : fire sc s (f + 1) = s := by
+  simp [fire, h]
+theorem fire_cons (sc : Script) (s : S) (f : Nat) (id : Nat) (rest : List Nat) (h : s.ready = id :: rest) :
+    fire sc s (f + 1) = fire sc (fireStep sc s id rest) f := by
+  simp only [fire, h]; rfl
+theorem fired_nil (sc : Script) (s : S) (f : Nat) (h : s.ready = []) : fired sc s (f + 1) = [] := by
+  simp [fired, h]
+theorem fired_cons (sc : Script) (s : S) (f : Nat) (id : Nat) (rest : List Nat) (h : s.ready = id :: rest) :
+    fired sc s (f + 1) = id :: fired sc (fireStep sc s id rest) f := by
+  simp only [fired, h]
+
+theorem preCb_same_but (s : S) (id : Nat) (rest : List Nat) :
+    (preCb s id rest).time = s.time ∧ (preCb s id rest).ncb = s.ncb + 1
+      ∧ (preCb s id rest).trace = (id, s.time) :: s.trace ∧ (preCb s id rest).ts.size = s.ts.size
+      ∧ (preCb s id rest).ready.Sublist rest := by
+  have h := again_same { s with ready := rest } id
+  unfold preCb
+  refine ⟨h.time, ?_, ?_, h.size, h.ready⟩
+  · show _ + 1 = _; rw [h.ncb]
+  · show (id, _) :: _ = _; rw [h.time, h.trace]
+
+theorem fireStep_fields (sc : Script) (s : S) (id : Nat) (rest : List Nat) :
+    (fireStep sc s id rest).time = s.time ∧ (fireStep sc s id rest).ncb = s.ncb + 1
+      ∧ (fireStep sc s id rest).trace = (id, s.time) :: s.trace
+      ∧ (fireStep sc s id rest).ts.size = s.ts.size
+      ∧ (fireStep sc s id rest).ready.Sublist rest := by
+  have h := preCb_same_but s id rest
+  have h2 := ops_same (sc (again { s with ready := rest } id).1.ncb) (preCb s id rest)
+  unfold fireStep
+  exact ⟨h2.time.trans h.1, h2.ncb.trans h.2.1, h2.trace.trans h.2.2.1, h2.size.trans h.2.2.2.1,
+    h2.ready.trans h.2.2.2.2⟩
+
+theorem preCb_wf (s : S) (id : Nat) (rest : List Nat) (hw : WF s) (hr : s.ready = id :: rest) :
+    WF (preCb s id rest) := by
+  unfold preCb
+  exact (again_wf _ id (hw.ready_sub rest (hr ▸ List.sublist_cons_self id rest))).ncb_trace _ _
+
+theorem fireStep_wf (sc : Script) (s : S) (id : Nat) (rest : List Nat) (hw : WF s)
+    (hr : s.ready = id :: rest) (hsc : ScriptOk s.ts.size sc) : WF (fireStep sc s id rest) := by
+  unfold fireStep
+  refine ops_wf _ _ (preCb_wf s id rest hw hr) ?_
+  intro o ho
+  rw [(preCb_same_but s id rest).2.2.2.1]
+  exact hsc _ o ho
+
+theorem fire_wf (sc : Script) (s : S) (f : Nat) (hw : WF s) (hsc : ScriptOk s.ts.size sc) :
+    WF (fire sc s f) := by
+  induction f generalizing s with
+  | zero => exact hw
+  | succ f ih =>
+    cases hr : s.ready with
+    | nil => rw [fire_nil sc s f hr]; exact hw
+    | cons id rest =>
+      rw [fire_cons sc s f id rest hr]
+      refine ih _ (fireStep_wf sc s id rest hw hr hsc) ?_
+      rw [(fireStep_fields sc s id rest).2.2.2.1]; exact hsc
+
+theorem fire_fields (sc : Script) (s : S) (f : Nat) :
+    (fire sc s f).time = s.time ∧ (fire sc s f).ts.size = s.ts.size
+      ∧ (fire sc s f).ncb = s.ncb + (fired sc s f).length := by
+  induction f generalizing s with
+  | zero => exact ⟨rfl, rfl, rfl⟩
+  | succ f ih =>
+    cases hr : s.ready with
+    | nil => rw [fire_nil sc s f hr, fired_nil sc s f hr]; exact ⟨rfl, rfl, rfl⟩
+    | cons id rest =>
+      rw [fire_cons sc s f id rest hr, fired_cons sc s f id rest hr]
+      have h := fireStep_fields sc s id rest
+      have := ih (fireStep sc s id rest)
+      refine ⟨this.1.trans h.1, this.2.1.trans h.2.2.2.1, ?_⟩
+      rw [this.2.2, h.2.1, List.length_cons]; omega
+
+/-- the trace grows by exactly the fired ids, each stamped with the (unchanged) loop time -/
+theorem fire_trace (sc : Script) (s : S) (f : Nat) :
+    (fire sc s f).trace = ((fired sc s f).map (fun id => (id, s.time))).reverse ++ s.trace := by
+  induction f generalizing s with
+  | zero => simp [fire, fired]
+  | succ f ih =>
+    cases hr : s.ready with
+    | nil => rw [fire_nil sc s f hr, fired_nil sc s f hr]; simp
+    | cons id rest =>
+      rw [fire_cons sc s f id rest hr, fired_cons sc s f id rest hr, ih]
+      have h := fireStep_fields sc s id rest
+      rw [h.1, h.2.2.1]
+      simp
+
+/-- callbacks never add to the ready queue: what is fired is a subsequence of the ready queue -/
+theorem fired_sublist (sc : Script) (s : S) (f : Nat) : (fired sc s f).Sublist s.ready := by
+  induction f generalizing s with
+  | zero => simp [fired]
+  | succ f ih =>
+    cases hr : s.ready with
+    | nil => rw [fired_nil sc s f hr]; exact List.Sublist.refl _
+    | cons id rest =>
+      rw [fired_cons sc s f id rest hr]
+      exact ((ih _).trans (fireStep_fields sc s id rest).2.2.2.2).cons_cons id
+
+theorem fire_fuel (sc : Script) (s : S) (f f' : Nat) (hf : s.ready.length < f) (hf' : s.ready.length < f') :
+    fire sc s f = fire sc s f' ∧ fired sc s f = fired sc s f' := by
+  induction f generalizing s f' with
+  | zero => omega
+  | succ f ih =>
+    cases f' with
+    | zero => omega
+    | succ f' =>
+      cases hr : s.ready with
+      | nil =>
+        rw [fire_nil sc s f hr, fired_nil sc s f hr, fire_nil sc s f' hr, fired_nil sc s f' hr]
+        exact ⟨rfl, rfl⟩
+      | cons id rest =>
+        rw [fire_cons sc s f id rest hr, fired_cons sc s f id rest hr, fire_cons sc s f' id rest hr,
+          fired_cons sc s f' id rest hr]
+        have hl := (fireStep_fields sc s id rest).2.2.2.2.length_le
+        rw [hr, List.length_cons] at hf hf'
+        have := ih (fireStep sc s id rest) f' (by omega) (by omega)
+        rw [this.1, this.2]; exact ⟨rfl, rfl⟩
+
+theorem fire_ready_empty (sc : Script) (s : S) (f : Nat) (hf : s.ready.length < f) :
+    (fire sc s f).ready = [] := by
+  induction f generalizing s with
+  | zero => omega
+  | succ f ih =>
+    cases hr : s.ready with
+    | nil => rw [fire_nil sc s f hr]; exact hr
+    | cons id rest =>
+      rw [fire_cons sc s f id rest hr]
+      have hl := (fireStep_fields sc s id rest).2.2.2.2.length_le
+      rw [hr, List.length_cons] at hf
+      exact ih _ (by omega)
+
+/-! ### a whole pass -/
+
+/-- entries collected by one `uv__run_timers` pass -/
+def runCollected (s : S) : List Ent := collected s (s.heap.size + 1)
+/-- ids whose callbacks one `uv__run_timers` pass invokes, in order -/
+def runFired (sc : Script) (s : S) : List Nat :=
+  fired sc (collect s (s.heap.size + 1)) ((collect s (s.heap.size + 1)).ready.length + 1)
+
+theorem runTimers_eq (sc : Script) (s : S) :
+    runTimers sc s = fire sc (collect s (s.heap.size + 1)) ((collect s (s.heap.size + 1)).ready.length + 1) := rfl
+
+theorem runTimers_wf (sc : Script) (s : S) (hw : WF s) (hsc : ScriptOk s.ts.size sc) :
+    WF (runTimers sc s) := by
+  rw [runTimers_eq]
+  refine fire_wf sc _ _ (collect_wf s _ hw) ?_
+  rw [(collect_fields s _).2.2.2.2]; exact hsc
+
+theorem runTimers_ready (sc : Script) (s : S) : (runTimers sc s).ready = [] := by
+  rw [runTimers_eq]; exact fire_ready_empty sc _ _ (by omega)
+
+theorem runTimers_fields (sc : Script) (s : S) :
+    (runTimers sc s).time = s.time ∧ (runTimers sc s).ts.size = s.ts.size := by
+  rw [runTimers_eq]
+  have h := fire_fields sc (collect s (s.heap.size + 1)) ((collect s (s.heap.size + 1)).ready.length + 1)
+  have h2 := collect_fields s (s.heap.size + 1)
+  exact ⟨h.1.trans h2.1, h.2.1.trans h2.2.2.2.2⟩
+
+theorem runTimers_trace (sc : Script) (s : S) :
+    (runTimers sc s).trace = ((runFired sc s).map (fun id => (id, s.time))).reverse ++ s.trace := by
+  rw [runTimers_eq, fire_trace]
+  have h2 := collect_fields s (s.heap.size + 1)
+  rw [h2.1, h2.2.2.2.1]; rfl
+
+theorem runFired_sublist (sc : Script) (s : S) (hw : WF s) (hr : s.ready = []) :
+    (runFired sc s).Sublist ((runCollected s).map (·.id)) := by
+  have h := fired_sublist sc (collect s (s.heap.size + 1)) ((collect s (s.heap.size + 1)).ready.length + 1)
+  have e : (collect s (s.heap.size + 1)).ready = (runCollected s).map (·.id) := by
+    rw [collect_ready s _ hw, hr, List.nil_append]; rfl
+  rw [← e]; exact h
+
+/-! ### handles that nobody re-arms stay inactive -/
+
+theorem stop_getT_ne (s : S) (i j : Nat) (h : j ≠ i) : getT (stop s i) j = getT s j := by
+  rw [stop_getT, if_neg h]
+
+theorem start_getT_ne (s : S) (i to rp j : Nat) (h : j ≠ i) : getT (start s i to rp).1 j = getT s j := by
+  rw [start_eq]; split
+  · rfl
+  · show getT (arm _ _ _ _) j = _
+    rw [arm_getT]; simp only [h, false_and, if_false]; exact stop_getT_ne s i j h
+
+theorem again_getT_ne (s : S) (i j : Nat) (h : j ≠ i) : getT (again s i).1 j = getT s j := by
+  rw [again_eq]; split
+  · rfl
+  · split
+    · show getT (start _ _ _ _).1 j = _
+      rw [start_getT_ne _ _ _ _ _ h, stop_getT_ne s i j h]
+    · rfl
+
+theorem close_getT (s : S) (i j : Nat) :
+    getT (close s i) j = if j = i ∧ i < s.ts.size then { getT (stop s i) i with closing := true }
+      else getT (stop s i) j := by
+  unfold close; rw [getT_setT, stop_size]
+
+/-- does the operation (re)arm handle `id`? -/
+def Op.rearms (id : Nat) : Op → Bool
+  | .start i _ _ => i == id
+  | .again i => i == id
+  | _ => false
+
+theorem applyOp_stays_inactive (s : S) (o : Op) (id : Nat) (h : (getT s id).active = false)
+    (hn : o.rearms id = false) : (getT (applyOp s o) id).active = false := by
+  cases o with
+  | start i to rp =>
+    have : id ≠ i := by intro e; simp [Op.rearms, e] at hn
+    show (getT (start s i to rp).1 id).active = false
+    rw [start_getT_ne _ _ _ _ _ this]; exact h
+  | stop i =>
+    show (getT (stop s i) id).active = false
+    rw [stop_getT]; split
+    · rfl
+    · exact h
+  | again i =>
+    have : id ≠ i := by intro e; simp [Op.rearms, e] at hn
+    show (getT (again s i).1 id).active = false
+    rw [again_getT_ne _ _ _ this]; exact h
+  | setRepeat i rp =>
+    show (getT (setRepeat s i rp) id).active = false
+    simpa using h
+  | close i =>
+    show (getT (close s i) id).active = false
+    rw [close_getT]; split
+    · exact stop_inactive_after s i
+    · rw [stop_getT]; split
+      · rfl
+      · exact h
+
+theorem ops_stays_inactive (ops : List Op) (s : S) (id : Nat) (h : (getT s id).active = false)
+    (hn : ∀ o ∈ ops, o.rearms id = false) : (getT (ops.foldl applyOp s) id).active = false := by
+  induction ops generalizing s with
+  | nil => exact h
+  | cons o r ih =>
+    exact ih _ (applyOp_stays_inactive s o id h (hn o List.mem_cons_self))
+      (fun o' ho' => hn o' (List.mem_cons_of_mem _ ho'))
+
+theorem collect_active_mono (s : S) (f : Nat) (j : Nat) (h : (getT (collect s f) j).active = true) :
+    (getT s j).active = true := by
+  induction f generalizing s with
+  | zero => exact h
+  | succ f ih =>
+    rcases collect_cases s f with ⟨_, h', _⟩ | ⟨e, _, _, h', _⟩ | ⟨e, hm, _, h', _⟩
+    · rw [h'] at h; exact h
+    · rw [h'] at h; exact h
+    · rw [h'] at h
+      have := ih _ h
+      rw [collectStep_getT, stop_getT] at this
+      split at this
+      · cases this
+      · exact this
+
+theorem collected_active (s : S) (f : Nat) (hw : WF s) :
+    ∀ e ∈ collected s f, e ∈ s.heap.toList ∧ (getT s e.id).active = true := by
+  intro e he
+  have hm : e ∈ s.heap.toList := (collect_perm s f hw).mem_iff.2 (List.mem_append_left _ he)
+  exact ⟨hm, (hw.ent e hm).1⟩
+
+theorem fire_stays_inactive (sc : Script) (s : S) (f : Nat) (id : Nat) (hi : (getT s id).active = false)
+    (hr : id ∉ s.ready) (hsc : ∀ k, ∀ o ∈ sc k, o.rearms id = false) :
+    (getT (fire sc s f) id).active = false := by
+  induction f generalizing s with
+  | zero => exact hi
+  | succ f ih =>
+    cases hrd : s.ready with
+    | nil => rw [fire_nil sc s f hrd]; exact hi
+    | cons i rest =>
+      rw [fire_cons sc s f i rest hrd]
+      rw [hrd] at hr
+      have hne : id ≠ i := fun e => hr (e ▸ List.mem_cons_self)
+      refine ih _ ?_ ?_
+      · unfold fireStep
+        refine ops_stays_inactive _ _ id ?_ (hsc _)
+        show (getT (again { s with ready := rest } i).1 id).active = false
+        rw [again_getT_ne _ _ _ hne]; exact hi
+      · intro h
+        exact hr (List.mem_cons_of_mem _ ((fireStep_fields sc s i rest).2.2.2.2.subset h))
+
+/-! ### re-arming inside the pass -/
+
+theorem arm_heap_mem (s : S) (id to rp : Nat) :
+    (⟨clampC s.time to, s.counter, id⟩ : Ent) ∈ (arm s id to rp).heap.toList :=
+  (insert_perm s.heap ⟨clampC s.time to, s.counter, id⟩).mem_iff.2 List.mem_cons_self
+
+theorem again_rearm_eq (s : S) (id : Nat) (hcb : (getT s id).hasCb = true) (hrep : (getT s id).rep ≠ 0)
+    (hc : (getT s id).closing = false) :
+    (again s id).1 = arm (stop (stop s id) id) id (getT s id).rep (getT s id).rep := by
+  rw [again_eq, if_neg (by simp [hcb]), if_pos hrep, start_eq, if_neg]
+  rw [stop_getT, if_pos rfl]; simp [hc]
+
+theorem again_norep_eq (s : S) (id : Nat) (hrep : (getT s id).rep = 0) : (again s id).1 = s := by
+  rw [again_eq]; split
+  · rfl
+  · rw [if_neg (by simp [hrep])]
+
+/-! ### event lists: operations from outside callbacks, clock updates, timer passes -/
+
+inductive Ev where
+  | op (o : Op)
+  | time (t : Nat)
+  | run (sc : Script)
+
+def step (s : S) : Ev → S
+  | .op o => applyOp s o
+  | .time t => updateTime s t
+  | .run sc => runTimers sc s
+
+def exec (s : S) (evs : List Ev) : S := evs.foldl step s
+
+/-- every handle id mentioned by the event exists (`n` handles) -/
+def Ev.ok (n : Nat) : Ev → Prop
+  | .op o => o.id < n
+  | .time _ => True
+  | .run sc => ScriptOk n sc
+
+/-- `n` initialised, never started timer handles -/
+def init (n : Nat) : S := { ts := Array.replicate n {} }
+
+theorem init_getT (n id : Nat) : getT (init n) id = {} := by
+  rw [getT_def]
+  show (Array.replicate n ({} : T))[id]?.getD default = _
+  rw [Array.getElem?_replicate]
+  split <;> rfl
+
+theorem init_wf (n : Nat) : WF (init n) := by
+  refine ⟨Nat.two_pow_pos 64, ?_, ?_, ?_, ?_, ?_, ?_, ?_, ?_, ?_⟩
+  · intro i _ hi; exact absurd hi (by simp [init])
+  · intro e he; simp [init] at he
+  · intro id h; rw [init_getT] at h; cases h
+  · simp [init]
+  · simp [init]
+  · intro id h; simp [init] at h
+  · simp [init]
+  · intro id h; rw [init_getT] at h; cases h
+  · intro id h; rw [init_getT] at h; cases h
+
+theorem updateTime_wf (s : S) (t : Nat) (hw : WF s) : WF (updateTime s t) :=
+  ⟨Nat.mod_lt _ (by decide), hw.inv, hw.ent, hw.act, hw.idNodup, hw.sidNodup, hw.rdy, hw.rdyNodup,
+   hw.closing, hw.actCb⟩
+
+theorem step_wf (s : S) (ev : Ev) (hw : WF s) (hr : s.ready = []) (hok : ev.ok s.ts.size) :
+    WF (step s ev) ∧ (step s ev).ready = [] ∧ (step s ev).ts.size = s.ts.size := by
+  cases ev with
+  | op o =>
+    refine ⟨applyOp_wf s o hw hok, ?_, (applyOp_same s o).size⟩
+    have := (applyOp_same s o).ready
+    rw [hr] at this
+    exact List.sublist_nil.1 this
+  | time t => exact ⟨updateTime_wf s t hw, hr, rfl⟩
+  | run sc => exact ⟨runTimers_wf sc s hw hok, runTimers_ready sc s, (runTimers_fields sc s).2⟩
+
+theorem exec_wf (s : S) (evs : List Ev) (hw : WF s) (hr : s.ready = [])
+    (hok : ∀ ev ∈ evs, ev.ok s.ts.size) :
+    WF (exec s evs) ∧ (exec s evs).ready = [] ∧ (exec s evs).ts.size = s.ts.size := by
+  induction evs generalizing s with
+  | nil => exact ⟨hw, hr, rfl⟩
+  | cons ev r ih =>
+    have h1 := step_wf s ev hw hr (hok ev List.mem_cons_self)
+    have := ih (step s ev) h1.1 h1.2.1 (fun e he => h1.2.2 ▸ hok e (List.mem_cons_of_mem _ he))
+    exact ⟨this.1, this.2.1, this.2.2.trans h1.2.2⟩
+
+/-! ### who can be fired by a pass -/
+
+theorem runCollected_mem (s : S) (hw : WF s) (hr : s.ready = []) :
+    ∀ id ∈ (collect s (s.heap.size + 1)).ready, ∃ e ∈ s.heap.toList, e.id = id ∧ e.timeout ≤ s.time
+      ∧ (getT s id).active = true ∧ (getT s id).timeout = e.timeout := by
+  intro id hid
+  rw [collect_ready s _ hw, hr, List.nil_append] at hid
+  obtain ⟨e, he, rfl⟩ := List.mem_map.1 hid
+  have h1 := collected_active s _ hw e he
+  exact ⟨e, h1.1, rfl, collected_due_le s _ e he, h1.2, (hw.ent e h1.1).2.1⟩
+
+theorem runFired_mem (sc : Script) (s : S) (hw : WF s) (hr : s.ready = []) :
+    ∀ id ∈ runFired sc s, ∃ e ∈ s.heap.toList, e.id = id ∧ e.timeout ≤ s.time
+      ∧ (getT s id).active = true ∧ (getT s id).timeout = e.timeout := by
+  intro id hid
+  exact runCollected_mem s hw hr id ((fired_sublist sc _ _).subset hid)
+
+theorem runTimers_stays_inactive (sc : Script) (s : S) (id : Nat) (hw : WF s) (hr : s.ready = [])
+    (hi : (getT s id).active = false) (hsc : ∀ k, ∀ o ∈ sc k, o.rearms id = false) :
+    (getT (runTimers sc s) id).active = false := by
+  rw [runTimers_eq]
+  refine fire_stays_inactive sc _ _ id ?_ ?_ hsc
+  · cases h : (getT (collect s (s.heap.size + 1)) id).active with
+    | false => rfl
+    | true => have := collect_active_mono s _ id h; rw [hi] at this; cases this
+  · intro h
+    obtain ⟨e, _, _, _, ha, _⟩ := runCollected_mem s hw hr id h
+    rw [hi] at ha; cases ha
+
+/-! ### `closing` is never reset -/
+
+theorem stop_closing (s : S) (i j : Nat) : (getT (stop s i) j).closing = (getT s j).closing := by
+  rw [stop_getT]; split
+  · rename_i h; rw [h]
+  · rfl
+
+theorem arm_closing (s : S) (i to rp j : Nat) : (getT (arm s i to rp) j).closing = (getT s j).closing := by
+  rw [arm_getT]; split
+  · rename_i h; rw [h.1]
+  · rfl
+
+theorem start_closing (s : S) (i to rp j : Nat) :
+    (getT (start s i to rp).1 j).closing = (getT s j).closing := by
+  rw [start_eq]; split
+  · rfl
+  · show (getT (arm _ _ _ _) j).closing = _
+    rw [arm_closing, stop_closing]
+
+theorem again_closing (s : S) (i j : Nat) : (getT (again s i).1 j).closing = (getT s j).closing := by
+  rw [again_eq]; split
+  · rfl
+  · split
+    · show (getT (start _ _ _ _).1 j).closing = _
+      rw [start_closing, stop_closing]
+    · rfl
+
+theorem applyOp_closing_mono (s : S) (o : Op) (j : Nat) (h : (getT s j).closing = true) :
+    (getT (applyOp s o) j).closing = true := by
+  cases o with
+  | start i to rp => show (getT (start s i to rp).1 j).closing = true; rw [start_closing]; exact h
+  | stop i => show (getT (stop s i) j).closing = true; rw [stop_closing]; exact h
+  | again i => show (getT (again s i).1 j).closing = true; rw [again_closing]; exact h
+  | setRepeat i rp => show (getT (setRepeat s i rp) j).closing = true; simpa using h
+  | close i =>
+    show (getT (close s i) j).closing = true
+    rw [close_getT]; split
+    · rfl
+    · rw [stop_closing]; exact h
+
+theorem ops_closing_mono (ops : List Op) (s : S) (j : Nat) (h : (getT s j).closing = true) :
+    (getT (ops.foldl applyOp s) j).closing = true := by
+  induction ops generalizing s with
+  | nil => exact h
+  | cons o r ih => exact ih _ (applyOp_closing_mono s o j h)
+
+theorem collect_closing (s : S) (f : Nat) (j : Nat) :
+    (getT (collect s f) j).closing = (getT s j).closing := by
+  induction f generalizing s with
+  | zero => rfl
+  | succ f ih =>
+    rcases collect_cases s f with ⟨_, h', _⟩ | ⟨e, _, _, h', _⟩ | ⟨e, hm, _, h', _⟩
+    · rw [h']
+    · rw [h']
+    · rw [h', ih, collectStep_getT, stop_closing]
+
+theorem fire_closing_mono (sc : Script) (s : S) (f : Nat) (j : Nat) (h : (getT s j).closing = true) :
+    (getT (fire sc s f) j).closing = true := by
+  induction f generalizing s with
+  | zero => exact h
+  | succ f ih =>
+    cases hrd : s.ready with
+    | nil => rw [fire_nil sc s f hrd]; exact h
+    | cons i rest =>
+      rw [fire_cons sc s f i rest hrd]
+      refine ih _ ?_
+      unfold fireStep
+      refine ops_closing_mono _ _ j ?_
+      show (getT (again { s with ready := rest } i).1 j).closing = true
+      rw [again_closing]; exact h
+
+theorem step_closing_mono (s : S) (ev : Ev) (j : Nat) (h : (getT s j).closing = true) :
+    (getT (step s ev) j).closing = true := by
+  cases ev with
+  | op o => exact applyOp_closing_mono s o j h
+  | time t => exact h
+  | run sc =>
+    show (getT (runTimers sc s) j).closing = true
+    rw [runTimers_eq]
+    exact fire_closing_mono sc _ _ j (by rw [collect_closing]; exact h)
+
+/-! ### what `start` leaves in the handle -/
+
+theorem start_handle (s : S) (id to rp : Nat) (hlt : id < s.ts.size) (hc : (getT s id).closing = false) :
+    (getT (start s id to rp).1 id).active = true ∧
+    (getT (start s id to rp).1 id).timeout = clampC s.time to ∧
+    (getT (start s id to rp).1 id).rep = rp ∧
+    (start s id to rp).2 = 0 := by
+  rw [start_eq, if_neg (by simp [hc])]
+  show (getT (arm _ _ _ _) id).active = true ∧ (getT (arm _ _ _ _) id).timeout = _ ∧
+    (getT (arm _ _ _ _) id).rep = _ ∧ _
+  rw [arm_getT, if_pos ⟨rfl, by simpa using hlt⟩]
+  simp
+
+/-! ### clock readings -/
+
+/-- the `uv__update_time` readings of the event list are non-decreasing from `lo` and fit 64 bits
+    (assumption on CLOCK_MONOTONIC) -/
+def TimesOk (lo : Nat) : List Ev → Prop
+  | [] => True
+  | ev :: r => match ev with
+    | .time t => lo ≤ t ∧ t < U64 ∧ TimesOk t r
+    | _ => TimesOk lo r
+
+theorem step_time_of_not_time (s : S) (ev : Ev) (h : ∀ t, ev ≠ .time t) : (step s ev).time = s.time := by
+  cases ev with
+  | op o => exact (applyOp_same s o).time
+  | time t => exact absurd rfl (h t)
+  | run sc => exact (runTimers_fields sc s).1
+
+theorem timesOk_exec (s : S) (evs : List Ev) (h : TimesOk s.time evs) : s.time ≤ (exec s evs).time := by
+  induction evs generalizing s with
+  | nil => exact Nat.le_refl _
+  | cons ev r ih =>
+    show s.time ≤ (exec (step s ev) r).time
+    cases ev with
+    | op o =>
+      have e : (step s (.op o)).time = s.time := (applyOp_same s o).time
+      have := ih (step s (.op o)) (by rw [e]; exact h)
+      omega
+    | run sc =>
+      have e : (step s (.run sc)).time = s.time := (runTimers_fields sc s).1
+      have := ih (step s (.run sc)) (by rw [e]; exact h)
+      omega
+    | time t =>
+      obtain ⟨h1, h2, h3⟩ := h
+      have e : (step s (.time t)).time = t := Nat.mod_eq_of_lt h2
+      have := ih (step s (.time t)) (by rw [e]; exact h3)
+      omega
+
+theorem timesOk_split (s : S) (a b : List Ev) (h : TimesOk s.time (a ++ b)) :
+    TimesOk (exec s a).time b := by
+  induction a generalizing s with
+  | nil => exact h
+  | cons ev r ih =>
+    show TimesOk (exec (step s ev) r).time b
+    cases ev with
+    | op o =>
+      have e : (step s (.op o)).time = s.time := (applyOp_same s o).time
+      exact ih _ (by rw [e]; exact h)
+    | run sc =>
+      have e : (step s (.run sc)).time = s.time := (runTimers_fields sc s).1
+      exact ih _ (by rw [e]; exact h)
+    | time t =>
+      obtain ⟨h1, h2, h3⟩ := h
+      have e : (step s (.time t)).time = t := Nat.mod_eq_of_lt h2
+      exact ih _ (by rw [e]; exact h3)
+
+/-! ### the due time of a handle is only written by `start`/`again` on that handle -/
+
+theorem stop_timeout (s : S) (i j : Nat) : (getT (stop s i) j).timeout = (getT s j).timeout := by
+  rw [stop_getT]; split
+  · rename_i h; rw [h]
+  · rfl
+
+theorem applyOp_timeout_stable (s : S) (o : Op) (id : Nat) (hn : o.rearms id = false) :
+    (getT (applyOp s o) id).timeout = (getT s id).timeout := by
+  cases o with
+  | start i to rp =>
+    have : id ≠ i := by intro e; simp [Op.rearms, e] at hn
+    show (getT (start s i to rp).1 id).timeout = _
+    rw [start_getT_ne _ _ _ _ _ this]
+  | stop i => exact stop_timeout s i id
+  | again i =>
+    have : id ≠ i := by intro e; simp [Op.rearms, e] at hn
+    show (getT (again s i).1 id).timeout = _
+    rw [again_getT_ne _ _ _ this]
+  | setRepeat i rp => exact setRepeat_timeout s i rp id
+  | close i =>
+    show (getT (close s i) id).timeout = _
+    rw [close_getT]; split
+    · rename_i h; rw [h.1]; exact stop_timeout s i i
+    · exact stop_timeout s i id
+
+theorem ops_timeout_stable (ops : List Op) (s : S) (id : Nat) (hn : ∀ o ∈ ops, o.rearms id = false) :
+    (getT (ops.foldl applyOp s) id).timeout = (getT s id).timeout := by
+  induction ops generalizing s with
+  | nil => rfl
+  | cons o r ih =>
+    exact (ih _ (fun o' ho' => hn o' (List.mem_cons_of_mem _ ho'))).trans
+      (applyOp_timeout_stable s o id (hn o List.mem_cons_self))
+
+theorem collect_timeout (s : S) (f : Nat) (j : Nat) :
+    (getT (collect s f) j).timeout = (getT s j).timeout := by
+  induction f generalizing s with
+  | zero => rfl
+  | succ f ih =>
+    rcases collect_cases s f with ⟨_, h', _⟩ | ⟨e, _, _, h', _⟩ | ⟨e, hm, _, h', _⟩
+    · rw [h']
+    · rw [h']
+    · rw [h', ih, collectStep_getT, stop_timeout]
+
+theorem fire_timeout_stable (sc : Script) (s : S) (f : Nat) (id : Nat) (hnf : id ∉ fired sc s f)
+    (hsc : ∀ k, ∀ o ∈ sc k, o.rearms id = false) :
+    (getT (fire sc s f) id).timeout = (getT s id).timeout := by
+  induction f generalizing s with
+  | zero => rfl
+  | succ f ih =>
+    cases hrd : s.ready with
+    | nil => rw [fire_nil sc s f hrd]
+    | cons i rest =>
+      rw [fired_cons sc s f i rest hrd, List.mem_cons, not_or] at hnf
+      rw [fire_cons sc s f i rest hrd, ih _ hnf.2]
+      unfold fireStep
+      rw [ops_timeout_stable _ _ id (hsc _)]
+      show (getT (again { s with ready := rest } i).1 id).timeout = _
+      rw [again_getT_ne _ _ _ hnf.1]; rfl
+
+theorem runTimers_timeout_stable (sc : Script) (s : S) (id : Nat) (hnf : id ∉ runFired sc s)
+    (hsc : ∀ k, ∀ o ∈ sc k, o.rearms id = false) :
+    (getT (runTimers sc s) id).timeout = (getT s id).timeout := by
+  rw [runTimers_eq, fire_timeout_stable sc _ _ id hnf hsc, collect_timeout]
+
+/-- does the event (re)arm handle `id` (from outside or from some callback)? -/
+def Ev.rearms (id : Nat) : Ev → Prop
+  | .op o => o.rearms id = true
+  | .time _ => False
+  | .run sc => ∃ k, ∃ o ∈ sc k, o.rearms id = true
+
+theorem Ev.not_rearms_run {id : Nat} {sc : Script} (h : ¬ (Ev.run sc).rearms id) :
+    ∀ k, ∀ o ∈ sc k, o.rearms id = false := by
+  intro k o ho
+  cases h' : o.rearms id with
+  | false => rfl
+  | true => exact absurd ⟨k, o, ho, h'⟩ h
+
+/-- ids invoked along an event list, in invocation order -/
+def execFired (s : S) : List Ev → List Nat
+  | [] => []
+  | ev :: r => (match ev with
+      | .run sc => runFired sc s
+      | _ => []) ++ execFired (step s ev) r
+
+/-- the handle ids of the trace are exactly `execFired` (newest first) -/
+theorem exec_trace_ids (s : S) (evs : List Ev) :
+    (exec s evs).trace.map (·.1) = (execFired s evs).reverse ++ s.trace.map (·.1) := by
+  induction evs generalizing s with
+  | nil => simp [exec, execFired]
+  | cons ev r ih =>
+    show (exec (step s ev) r).trace.map (·.1) = _
+    rw [ih]
+    cases ev with
+    | op o =>
+      have : (step s (.op o)).trace = s.trace := (applyOp_same s o).trace
+      simp [execFired, this]
+    | time t =>
+      have : (step s (.time t)).trace = s.trace := rfl
+      simp [execFired, this]
+    | run sc =>
+      have : (step s (.run sc)).trace = _ := runTimers_trace sc s
+      simp [execFired, this, Function.comp_def]
+
+theorem exec_timeout_stable (s : S) (id : Nat) (evs : List Ev) (hn : ∀ ev ∈ evs, ¬ ev.rearms id)
+    (hnf : id ∉ execFired s evs) : (getT (exec s evs) id).timeout = (getT s id).timeout := by
+  induction evs generalizing s with
+  | nil => rfl
+  | cons ev r ih =>
+    show (getT (exec (step s ev) r) id).timeout = _
+    simp only [execFired, List.mem_append, not_or] at hnf
+    rw [ih _ (fun e he => hn e (List.mem_cons_of_mem _ he)) hnf.2]
+    have hn1 := hn ev List.mem_cons_self
+    cases ev with
+    | op o => exact applyOp_timeout_stable s o id (by simpa [Ev.rearms] using hn1)
+    | time t => rfl
+    | run sc => exact runTimers_timeout_stable sc s id hnf.1 (Ev.not_rearms_run hn1)
+
+/-! ### scenario for the non-vacuity examples of the property file
+
+  three timers: #0 due 10, #1 due 10 repeat 5, #2 due 12; clock at 15.
+  The first callback of the pass (timer #0's) stops #1 — which is already
+  collected — and restarts #0 itself with timeout 0. -/
+
+def exEvs : List Ev :=
+  [.op (.start 0 10 0), .op (.start 1 10 5), .op (.start 2 12 0), .time 15]
+def exS : S := exec (init 3) exEvs
+def exSc : Script := fun k => if k = 0 then [.stop 1, .start 0 0 0] else []
+def noSc : Script := fun _ => []
+
+theorem exSc_ok : ScriptOk 3 exSc := by
+  intro k o ho
+  unfold exSc at ho
+  split at ho
+  · simp at ho; rcases ho with rfl | rfl <;> decide
+  · cases ho
+
+theorem exEvs_ok : ∀ ev ∈ exEvs ++ [Ev.run exSc], ev.ok 3 := by
+  intro ev hev
+  simp [exEvs] at hev
+  rcases hev with rfl | rfl | rfl | rfl | rfl
+  · show 0 < 3; decide
+  · show 1 < 3; decide
+  · show 2 < 3; decide
+  · trivial
+  · exact exSc_ok
+
 end UvModel.Timer
